@@ -103,6 +103,10 @@ def variants_for(e, v, rnd, extra_setwise=2):
         out.append(dict(perm=0, shared=True))
     if mc.has_alt(e):
         out.append(dict(perm=0, alt=True))
+    if mc.has_op(e, ("MatchesStructure",)):
+        # derived matchers: update() on every MatchesStructure of the tree, before the original is used
+        out.append(dict(perm=0, derive=True))
+        out.append(dict(perm=0, alt=True, derive=True))
     if mc.has_op(e, ("MatchesRegex",)):
         # cross-matcher state: the same patterns with other flags are used first, on the same value
         out.append(dict(perm=0, twin=1))
@@ -124,13 +128,33 @@ def diff_class(a, b, cur=None):
     return cur
 
 
+def envkw_of(var):
+    return {k: x for k, x in var.items() if k not in ("twin", "derive")}
+
+
+def derive_from(env):
+    """Derived-matcher operations on every MatchesStructure object of a construction: replace, remove and add an
+    attribute matcher with update() and throw the derived matcher away.  The original must not notice."""
+    from testtools import matchers as M
+
+    for obj in list(env.built.values()):
+        if type(obj).__name__ != "MatchesStructure":
+            continue
+        names = sorted(obj.kws)
+        if names:
+            obj.update(**{names[0]: M.Never()})
+            obj.update(**{names[-1]: None})
+            obj.update(**{n: M.Always() for n in names}).update(**{names[0]: None})
+        obj.update(zz=M.Never())
+        obj.update()
+
+
 def check_pair(e, v, expected, cx, pool, rnd, variants):
     """Returns a list of failures: dicts clause, variant, observed, detail."""
     fails = []
     for var in variants:
         mc.jitter(rnd)
-        envkw = {k: x for k, x in var.items() if k != "twin"}
-        env = mc.Env(cx, pool, rnd=rnd, **envkw)
+        env = mc.Env(cx, pool, rnd=rnd, **envkw_of(var))
         val = mc.build_value(v, env)
         if var.get("twin"):
             # a sibling matcher (same regex patterns, other flags) matches first: it must not influence `m`
@@ -138,10 +162,21 @@ def check_pair(e, v, expected, cx, pool, rnd, variants):
         m = mc.build_matcher(e, env)
         sm0 = mc.snapshot(m)
         sv0 = mc.snap_value(v, val)
+        str0 = None
+        if var.get("derive"):
+            # matchers derived from this one (MatchesStructure.update) are built and dropped before it is used:
+            # its verdict, its structure and its str() must be those of the matcher as written
+            try:
+                str0 = str(m)
+                derive_from(env)
+            except Exception as ex:  # noqa
+                fails.append(dict(clause="matcher-modified", variant=var, observed="update raised %s" % type(ex).__name__))
         r1, _ = mc.verdict(m, val)
         r2, _ = mc.verdict(m, val)
         sm1 = mc.snapshot(m)
         sv1 = mc.snap_value(v, val)
+        if str0 is not None and sm0 == sm1 and str(m) != str0:
+            fails.append(dict(clause="matcher-modified", variant=var, observed="str:" + e["op"]))
         mc.jitter(rnd, keep=m)
         if r1 != expected:
             # what every sub-matcher OBJECT of this very construction says about its sub-value (same objects, same
@@ -189,7 +224,7 @@ def localise_all(failures, pool, rep, rnd):
             continue
         env = None
         for attempt in range(80):
-            env = mc.Env(f["cx"], pool, rnd=rnd, **{k: x for k, x in f["variant"].items() if k != "twin"})
+            env = mc.Env(f["cx"], pool, rnd=rnd, **envkw_of(f["variant"]))
             val = mc.build_value(f["v"], env)
             m = mc.build_matcher(f["e"], env)
             r, _ = mc.verdict(m, val)
@@ -344,7 +379,7 @@ def random_rows(rep, pool, rnd, n, maxdepth, source):
         cx = cxs[-1]
         var = rnd.choice(variants_for(e, v, rnd, extra_setwise=1))
         mc.jitter(rnd)
-        env = mc.Env(cx, pool, rnd=rnd, **{k: x for k, x in var.items() if k != "twin"})
+        env = mc.Env(cx, pool, rnd=rnd, **envkw_of(var))
         val = mc.build_value(v, env)
         if var.get("twin"):
             mc.verdict(mc.build_matcher(mc.regex_twin(e, var["twin"]), mc.Env(cx, pool, rnd=rnd)), val)
